@@ -177,15 +177,19 @@ theorem evalRT_filterT :
     · exact ⟨rfl, by simp only [HasTyR]; exact h⟩
   | .map kvs, t, h => by
     simp only [HasTyR] at h
-    obtain ⟨ha, hm, hk⟩ := h
-    have c1 : (t.arrDim == 0 && t.mapDim == 0) = false := by simp [ha, hm]
-    simp only [filterT, c1, Bool.false_eq_true, ↓reduceIte]
-    split
-    · have := evalRT_filterTFields kvs _ hk
-      have c2 : (t.arrDim == 0 && t.mapDim != 0) = true := by simp [ha, hm]
-      simp only [evalRT, c2, if_true, this.1, HasTyR]
-      exact ⟨trivial, ha, hm, this.2⟩
-    · exact ⟨rfl, by simp only [HasTyR]; exact ⟨ha, hm, hk⟩⟩
+    rcases h with ⟨ha, hm, hk⟩ | ⟨ha, hm, hl, hj⟩
+    · have c1 : (t.arrDim == 0 && t.mapDim == 0) = false := by simp [ha, hm]
+      simp only [filterT, c1, Bool.false_eq_true, ↓reduceIte]
+      split
+      · have := evalRT_filterTFields kvs _ hk
+        have c2 : (t.arrDim == 0 && t.mapDim != 0) = true := by simp [ha, hm]
+        simp only [evalRT, c2, if_true, this.1, HasTyR]
+        exact ⟨trivial, Or.inl ⟨ha, hm, this.2⟩⟩
+      · exact ⟨rfl, by simp only [HasTyR]; exact Or.inl ⟨ha, hm, hk⟩⟩
+    · have c1 : (t.arrDim == 0 && t.mapDim == 0) = true := by simp [ha, hm]
+      have e' : filterT st t (.map kvs) = .map kvs := by simp [filterT, c1, hl]
+      rw [e']
+      exact ⟨rfl, by simp only [HasTyR]; exact Or.inr ⟨ha, hm, hl, hj⟩⟩
   | .struct kvs, t, h => by
     simp only [HasTyR] at h
     obtain ⟨ha, hm, ps, hl, hmem, hall⟩ := h
@@ -242,7 +246,15 @@ theorem evalRT_filterT :
       simp only [evalRT, HasTyR, ih.1]
       exact ⟨trivial, ih.2⟩
     · exact ⟨rfl, by simp only [HasTyR]; exact h⟩
-  | .split c true e, t, h => by simp [HasTyR] at h
+  | .split c true e, t, h => by
+    simp only [HasTyR] at h
+    simp only [filterT]
+    split
+    · have ih := evalRT_filterT e _ h.2
+      simp only [liftSplitTy, if_true] at ih ⊢
+      simp only [evalRT, HasTyR, ih.1]
+      exact ⟨trivial, h.1, ih.2⟩
+    · exact ⟨rfl, by simp only [HasTyR]; exact h⟩
   | .merge c m e, t, h => by
     have e' : filterT st t (.merge c m e) = .merge c m e := by simp [filterT]
     rw [e']; exact ⟨rfl, h⟩
@@ -433,33 +445,80 @@ theorem noSplitOf_pushForkFields (c' c : String) (ix : Idx) :
     exact ⟨noSplitOf_pushFork c' c ix e h.1, noSplitOf_pushForkFields c' c ix es h.2⟩
 end
 
+mutual
+theorem pushFork_json (c : String) (ix : Idx) : ∀ e : RExp, jsonR e = true → pushFork c ix e = e
+  | .lit _, _ => by simp [pushFork]
+  | .arr xs, h => by simp only [jsonR] at h; simp only [pushFork, pushFork_jsonList c ix xs h]
+  | .map kvs, h => by simp only [jsonR] at h; simp only [pushFork, pushFork_jsonFields c ix kvs h]
+  | .struct _, h => by simp [jsonR] at h
+  | .ref _ _ _, h => by simp [jsonR] at h
+  | .split _ _ _, h => by simp [jsonR] at h
+  | .merge _ _ _, h => by simp [jsonR] at h
+  | .disabled _ _, h => by simp [jsonR] at h
+  | .fork _ _ _, h => by simp [jsonR] at h
+theorem pushFork_jsonList (c : String) (ix : Idx) : ∀ es : List RExp, jsonRList es = true → pushForkList c ix es = es
+  | [], _ => rfl
+  | e :: es, h => by
+    simp only [jsonRList, Bool.and_eq_true] at h
+    simp only [pushForkList, pushFork_json c ix e h.1, pushFork_jsonList c ix es h.2]
+theorem pushFork_jsonFields (c : String) (ix : Idx) :
+    ∀ es : List (String × RExp), jsonRFields es = true → pushForkFields c ix es = es
+  | [], _ => rfl
+  | (k, e) :: es, h => by
+    simp only [jsonRFields, Bool.and_eq_true] at h
+    simp only [pushForkFields, pushFork_json c ix e h.1, pushFork_jsonFields c ix es h.2]
+end
+
+theorem lookup_evalRTFields (st : StructTable) (F : Nat) (ρ : Store) (f : ForkAssign) (t : Ty) :
+    ∀ (kvs : List (String × RExp)) (s : String),
+      (evalRTFields st F ρ f t kvs).lookup s = (kvs.lookup s).map (evalRT st F ρ f t)
+  | [], _ => rfl
+  | (k, e) :: es, s => by
+    simp only [evalRTFields, List.lookup_cons]
+    cases (s == k) <;> simp [lookup_evalRTFields st F ρ f t es s]
+
+theorem HasTyRFields_lookupD (st : StructTable) (t : Ty) :
+    ∀ (kvs : List (String × RExp)) (s : String), HasTyRFields st t kvs →
+      HasTyR st t ((kvs.lookup s).getD (.lit .null))
+  | [], _, _ => by simp [HasTyR, LitOk]
+  | (k, e) :: es, s, h => by
+    simp only [HasTyRFields] at h
+    simp only [List.lookup_cons]
+    cases (s == k) with
+    | true => simpa using h.1
+    | false => simpa using HasTyRFields_lookupD st t es s h.2
+
 section push
-variable (st : StructTable) (hst : StructsOk st) (F : Nat) (ρ : Store) (hρ : StoreExt ρ) (c : String) (k : Nat)
-include hst hρ
+variable (st : StructTable) (hst : StructsOk st) (F : Nat) (ρ : Store) (hρ : StoreExt ρ) (c : String) (ix : Idx) (m : Bool) (hix : IdxMode ix m)
+include hst hρ hix
 
 mutual
 theorem pushFork_evalRT :
-    ∀ (e : RExp) (t : Ty) (f : ForkAssign), HasTyR st t e → noMergeOf c e = true →
-      evalRT st F ρ f t (pushFork c (.i k) e) = evalRT st F ρ (fset f c (.i k)) t e ∧
-      HasTyR st t (pushFork c (.i k) e)
+    ∀ (e : RExp) (t : Ty) (f : ForkAssign), HasTyR st t e → pushOk c m e = true →
+      evalRT st F ρ f t (pushFork c ix e) = evalRT st F ρ (fset f c ix) t e ∧
+      HasTyR st t (pushFork c ix e)
   | .lit j, t, f, h, _ => by simp only [pushFork, evalRT]; exact ⟨trivial, h⟩
   | .arr xs, t, f, h, hnm => by
     simp only [HasTyR] at h
-    simp only [noMergeOf] at hnm
+    simp only [pushOk] at hnm
     have ih := pushFork_evalRTList xs _ f h.2 hnm
     simp only [pushFork, evalRT, HasTyR, ih.1]
     exact ⟨trivial, h.1, ih.2⟩
   | .map kvs, t, f, h, hnm => by
     simp only [HasTyR] at h
-    simp only [noMergeOf] at hnm
-    obtain ⟨ha, hm, hk⟩ := h
-    have ih := pushFork_evalRTFields kvs _ f hk hnm
-    have c2 : (t.arrDim == 0 && t.mapDim != 0) = true := by simp [ha, hm]
-    simp only [pushFork, evalRT, c2, if_true, ih.1, HasTyR]
-    exact ⟨trivial, ha, hm, ih.2⟩
+    simp only [pushOk] at hnm
+    rcases h with ⟨ha, hm, hk⟩ | ⟨ha, hm, hl, hj⟩
+    · have ih := pushFork_evalRTFields kvs _ f hk hnm
+      have c2 : (t.arrDim == 0 && t.mapDim != 0) = true := by simp [ha, hm]
+      simp only [pushFork, evalRT, c2, if_true, ih.1, HasTyR]
+      exact ⟨trivial, Or.inl ⟨ha, hm, ih.2⟩⟩
+    · -- a reference-free literal is not changed by the specialisation
+      have hj' : jsonR (.map kvs) = true := by simpa [jsonR] using hj
+      rw [pushFork_json c ix (.map kvs) hj']
+      exact ⟨evalRT_json_eq st F ρ _ t t f _ hj' hm hl hm hl, by simp only [HasTyR]; exact Or.inr ⟨ha, hm, hl, hj⟩⟩
   | .struct kvs, t, f, h, hnm => by
     simp only [HasTyR] at h
-    simp only [noMergeOf] at hnm
+    simp only [pushOk] at hnm
     obtain ⟨ha, hm, ps, hl, hmem, hall⟩ := h
     have hn := hst _ _ hl
     have c2 : (t.arrDim == 0 && t.mapDim != 0) = false := by simp [ha, hm]
@@ -479,7 +538,7 @@ theorem pushFork_evalRT :
       refine ⟨ha, hm, ps, hl, ?_, ?_⟩
       · apply HasTyRMembers_of_mem
         intro k' e' hke hsome
-        obtain ⟨e, he, hr⟩ := mem_pushForkFields c (.i k) kvs k' e' hke
+        obtain ⟨e, he, hr⟩ := mem_pushForkFields c ix kvs k' e' hke
         subst hr
         cases hf' : ps.find? (fun q => q.name == k') with
         | none => simp [hf'] at hsome
@@ -497,12 +556,22 @@ theorem pushFork_evalRT :
     exact ⟨trivial, h⟩
   | .split c' false e, t, f, h, hnm => by
     simp only [HasTyR] at h
-    simp only [noMergeOf] at hnm
-    have ih := pushFork_evalRT e _ f h hnm
+    simp only [pushOk, Bool.and_eq_true, Bool.or_eq_true, bne_iff_ne, ne_eq, beq_iff_eq] at hnm
+    have ih := pushFork_evalRT e _ f h hnm.2
     simp only [pushFork]
     by_cases hc : (c' == c) = true
     · have hcc : c' = c := by simpa using hc
       subst hcc
+      have hmf : m = false := by
+        cases hnm.1 with
+        | inl h0 => exact absurd rfl h0
+        | inr h0 => exact h0.symm
+      subst hmf
+      obtain ⟨k, rfl⟩ : ∃ k, ix = Idx.i k := by
+        cases ix with
+        | i k => exact ⟨k, rfl⟩
+        | k s => simp [IdxMode] at hix
+        | none => simp [IdxMode] at hix
       simp only [hc, if_true]
       cases hp : pushFork c' (.i k) e with
       | arr xs =>
@@ -528,36 +597,105 @@ theorem pushFork_evalRT :
       | disabled a b => simp only [selectIx, evalRT, HasTyR]; exact ⟨trivial, h⟩
       | fork a b d => simp only [selectIx, evalRT, HasTyR]; exact ⟨trivial, h⟩
     · have hc' : (c' == c) = false := by simpa using hc
-      simp only [hc', Bool.false_eq_true, if_false, evalRT, HasTyR, ih.1, fset_lookup_ne f c c' (.i k) hc']
+      simp only [hc', Bool.false_eq_true, if_false, evalRT, HasTyR, ih.1, fset_lookup_ne f c c' ix hc']
       exact ⟨trivial, ih.2⟩
-  | .split _ true _, _, _, h, _ => by simp [HasTyR] at h
+  | .split c' true e, t, f, h, hnm => by
+    obtain ⟨tb, tm, ta⟩ := t
+    simp only [HasTyR] at h
+    simp only [pushOk, Bool.and_eq_true, Bool.or_eq_true, bne_iff_ne, ne_eq, beq_iff_eq] at hnm
+    obtain ⟨hnb, he⟩ := h
+    have htm : tm = 0 := hnb.mapDim
+    subst htm
+    have ih := pushFork_evalRT e _ f he hnm.2
+    simp only [pushFork]
+    by_cases hc : (c' == c) = true
+    · have hcc : c' = c := by simpa using hc
+      subst hcc
+      have hmt : m = true := by
+        cases hnm.1 with
+        | inl h0 => exact absurd rfl h0
+        | inr h0 => exact h0.symm
+      subst hmt
+      obtain ⟨s, rfl⟩ : ∃ s, ix = Idx.k s := by
+        cases ix with
+        | k s => exact ⟨s, rfl⟩
+        | i k => simp [IdxMode] at hix
+        | none => simp [IdxMode] at hix
+      simp only [hc, if_true]
+      cases hp : pushFork c' (.k s) e with
+      | map kvs =>
+        rw [hp] at ih
+        simp only [selectIx]
+        have hk : HasTyRFields st ⟨tb, 0, ta⟩ kvs := by
+          have := ih.2
+          simp only [HasTyR] at this
+          rcases this with ⟨_, _, hk⟩ | ⟨_, hm0, _, _⟩
+          · simpa using hk
+          · simp at hm0
+        constructor
+        · simp only [evalRT, fset_lookup, Option.getD_some]
+          rw [← ih.1]
+          have c2 : ((0 : Nat) == 0 && (ta + 1 != 0)) = true := by simp
+          simp only [evalRT, c2, if_true, Nat.add_sub_cancel, elemMap, elemAt, J.field, lookup_evalRTFields]
+          cases kvs.lookup s <;> simp [evalRT]
+        · exact HasTyRFields_lookupD st _ kvs s hk
+      | arr xs =>
+        rw [hp] at ih
+        have := ih.2
+        simp [HasTyR] at this
+      | lit j => simp only [selectIx, evalRT, HasTyR]; exact ⟨trivial, hnb, he⟩
+      | struct kvs => simp only [selectIx, evalRT, HasTyR]; exact ⟨trivial, hnb, he⟩
+      | ref a b d => simp only [selectIx, evalRT, HasTyR]; exact ⟨trivial, hnb, he⟩
+      | split a b d => simp only [selectIx, evalRT, HasTyR]; exact ⟨trivial, hnb, he⟩
+      | merge a b d => simp only [selectIx, evalRT, HasTyR]; exact ⟨trivial, hnb, he⟩
+      | disabled a b => simp only [selectIx, evalRT, HasTyR]; exact ⟨trivial, hnb, he⟩
+      | fork a b d => simp only [selectIx, evalRT, HasTyR]; exact ⟨trivial, hnb, he⟩
+    · have hc' : (c' == c) = false := by simpa using hc
+      simp only [hc', Bool.false_eq_true, if_false, evalRT, HasTyR, ih.1, fset_lookup_ne f c c' ix hc']
+      exact ⟨trivial, hnb, ih.2⟩
   | .merge c' false e, t, f, h, hnm => by
     obtain ⟨b, m, a⟩ := t
     simp only [HasTyR] at h
-    simp only [noMergeOf, Bool.and_eq_true, bne_iff_ne, ne_eq] at hnm
+    simp only [pushOk, Bool.and_eq_true, bne_iff_ne, ne_eq] at hnm
     obtain ⟨ha, hns, hty⟩ := h
-    have hns' := noSplitOf_pushFork c' c (.i k) e hns
+    have hns' := noSplitOf_pushFork c' c ix e hns
     have hcc : (c' == c) = false := by simpa using hnm.1
     simp only [pushFork, Proofs.ResolverForks.mkMerge_noSplit c' false _ hns', evalRT, HasTyR]
     refine ⟨?_, ha, hns', (pushFork_evalRT e _ f hty hnm.2).2⟩
     congr 1
     apply List.map_congr_left
     intro ix' _
-    rw [(pushFork_evalRT e _ (fset (fset f c (.i k)) c' ix') hty hnm.2).1]
+    rw [(pushFork_evalRT e _ (fset (fset f c ix) c' ix') hty hnm.2).1]
     apply evalRT_congr st F ρ hρ
     intro d
-    rw [← fset_comm (fset f c (.i k)) c c' (.i k) ix' hcc d, fset_fset]
-  | .merge _ true _, _, _, h, _ => by simp [HasTyR] at h
+    rw [← fset_comm (fset f c ix) c c' ix ix' hcc d, fset_fset]
+  | .merge c' true e, t, f, h, hnm => by
+    obtain ⟨b, mm, a⟩ := t
+    simp only [HasTyR] at h
+    simp only [pushOk, Bool.and_eq_true, bne_iff_ne, ne_eq] at hnm
+    obtain ⟨ha, hm0, hns, hty⟩ := h
+    have hns' := noSplitOf_pushFork c' c ix e hns
+    have hcc : (c' == c) = false := by simpa using hnm.1
+    simp only [pushFork, Proofs.ResolverForks.mkMerge_noSplit c' true _ hns', evalRT, HasTyR]
+    refine ⟨?_, ha, hm0, hns', (pushFork_evalRT e _ f hty hnm.2).2⟩
+    congr 1
+    apply List.map_congr_left
+    intro ix' _
+    simp only [Prod.mk.injEq, true_and]
+    rw [(pushFork_evalRT e _ (fset (fset f c ix) c' ix') hty hnm.2).1]
+    apply evalRT_congr st F ρ hρ
+    intro d
+    rw [← fset_comm (fset f c ix) c c' ix ix' hcc d, fset_fset]
   | .disabled d v, t, f, h, hnm => by
     simp only [HasTyR] at h
-    simp only [noMergeOf, Bool.and_eq_true] at hnm
+    simp only [pushOk, Bool.and_eq_true] at hnm
     have ih1 := pushFork_evalRT d _ f h.1 hnm.1
     have ih2 := pushFork_evalRT v t f h.2 hnm.2
     simp only [pushFork, evalRT, HasTyR, ih1.1, ih2.1]
     exact ⟨trivial, ih1.2, ih2.2⟩
   | .fork c' ix' e, t, f, h, hnm => by
     simp only [HasTyR] at h
-    simp only [noMergeOf] at hnm
+    simp only [pushOk] at hnm
     simp only [pushFork]
     by_cases hc : (c' == c) = true
     · have hcc : c' = c := by simpa using hc
@@ -570,41 +708,41 @@ theorem pushFork_evalRT :
       refine ⟨?_, ih.2⟩
       apply evalRT_congr st F ρ hρ
       intro d
-      exact (fset_comm f c c' (.i k) ix' hc' d).symm
+      exact (fset_comm f c c' ix ix' hc' d).symm
 theorem pushFork_evalRTList :
-    ∀ (es : List RExp) (t : Ty) (f : ForkAssign), HasTyRList st t es → noMergeOfList c es = true →
-      evalRTList st F ρ f t (pushForkList c (.i k) es) = evalRTList st F ρ (fset f c (.i k)) t es ∧
-      HasTyRList st t (pushForkList c (.i k) es)
+    ∀ (es : List RExp) (t : Ty) (f : ForkAssign), HasTyRList st t es → pushOkList c m es = true →
+      evalRTList st F ρ f t (pushForkList c ix es) = evalRTList st F ρ (fset f c ix) t es ∧
+      HasTyRList st t (pushForkList c ix es)
   | [], _, _, _, _ => by simp [pushForkList, evalRTList, HasTyRList]
   | e :: es, t, f, h, hnm => by
     simp only [HasTyRList] at h
-    simp only [noMergeOfList, Bool.and_eq_true] at hnm
+    simp only [pushOkList, Bool.and_eq_true] at hnm
     have h1 := pushFork_evalRT e t f h.1 hnm.1
     have h2 := pushFork_evalRTList es t f h.2 hnm.2
     simp only [pushForkList, evalRTList, HasTyRList, h1.1, h2.1]
     exact ⟨trivial, h1.2, h2.2⟩
 theorem pushFork_evalRTFields :
     ∀ (kvs : List (String × RExp)) (t : Ty) (f : ForkAssign), HasTyRFields st t kvs →
-      noMergeOfFields c kvs = true →
-      evalRTFields st F ρ f t (pushForkFields c (.i k) kvs) = evalRTFields st F ρ (fset f c (.i k)) t kvs ∧
-      HasTyRFields st t (pushForkFields c (.i k) kvs)
+      pushOkFields c m kvs = true →
+      evalRTFields st F ρ f t (pushForkFields c ix kvs) = evalRTFields st F ρ (fset f c ix) t kvs ∧
+      HasTyRFields st t (pushForkFields c ix kvs)
   | [], _, _, _, _ => by simp [pushForkFields, evalRTFields, HasTyRFields]
   | (k', e) :: es, t, f, h, hnm => by
     simp only [HasTyRFields] at h
-    simp only [noMergeOfFields, Bool.and_eq_true] at hnm
+    simp only [pushOkFields, Bool.and_eq_true] at hnm
     have h1 := pushFork_evalRT e t f h.1 hnm.1
     have h2 := pushFork_evalRTFields es t f h.2 hnm.2
     simp only [pushForkFields, evalRTFields, HasTyRFields, h1.1, h2.1]
     exact ⟨trivial, h1.2, h2.2⟩
 theorem pushFork_evalRTMembers (ps : List Param) :
-    ∀ (kvs : List (String × RExp)) (f : ForkAssign), HasTyRMembers st ps kvs → noMergeOfFields c kvs = true →
+    ∀ (kvs : List (String × RExp)) (f : ForkAssign), HasTyRMembers st ps kvs → pushOkFields c m kvs = true →
       ∀ (k' : String) (e : RExp), (k', e) ∈ kvs → ∀ (p : Param), ps.find? (fun q => q.name == k') = some p →
-        evalRT st F ρ f p.ty (pushFork c (.i k) e) = evalRT st F ρ (fset f c (.i k)) p.ty e ∧
-        HasTyR st p.ty (pushFork c (.i k) e)
+        evalRT st F ρ f p.ty (pushFork c ix e) = evalRT st F ρ (fset f c ix) p.ty e ∧
+        HasTyR st p.ty (pushFork c ix e)
   | [], _, _, _, _, _, h, _, _ => by simp at h
   | (k0, e0) :: es, f, hm, hnm, k', e, h, p, hf => by
     simp only [HasTyRMembers] at hm
-    simp only [noMergeOfFields, Bool.and_eq_true] at hnm
+    simp only [pushOkFields, Bool.and_eq_true] at hnm
     simp only [List.mem_cons, Prod.mk.injEq] at h
     cases h with
     | inl h =>
